@@ -189,10 +189,15 @@ EXTRA_POSITIONS = [
     ("XFStringConcatSecond", "fstring-in-concatenation", "e", ['v = "head" f"{$E}"']),
     ("XFStringConcatBoth", "fstring-in-concatenation", "e", ['v = f"{q}" f"{$E}"']),
     ("XFStringConcatSpec", "fstring-in-concatenation", "e", ['v = "head" f"{q:>{$E}}"']),
+    ("XFStringConcatThree", "fstring-in-concatenation", "e", ['v = "head" f"{q}" "mid" f"{$E!r}" "tail"']),
+    ("XFStringConcatArg", "fstring-in-concatenation", "e", ['print("head" f"{$E}", end="")']),
     ("XYieldFrom", "yield-from", "e", ["yield from $E"]),
+    ("XYieldFromAssigned", "yield-from", "e", ["v = yield from $E"]),
     ("XExceptTypeAs", "except-type-as", "e", ["try:", "    pass", "except $E as err:", "    pass"]),
     ("XExceptTupleAs", "except-type-as", "e", ["try:", "    pass", "except (E, $E) as err:", "    pass"]),
     ("XExceptTuple", "except-type", "e", ["try:", "    pass", "except (E, $E):", "    pass"]),
+    ("XExceptSecondHandlerAs", "except-type-as", "e", ["try:", "    pass", "except E:", "    pass", "except $E as err:", "    pass"]),
+    ("XExceptStarAs", "except-type-as", "e", ["try:", "    pass", "except* $E as err:", "    pass"]),
     # several `if` clauses of one comprehension
     ("XCompFirstIfOfTwo", "comprehension-several-ifs", "e", ["v = [i for i in y if $E if d]"]),
     ("XCompLastIfOfTwo", "comprehension-last-if", "e", ["v = [i for i in y if c if $E]"]),
@@ -200,18 +205,26 @@ EXTRA_POSITIONS = [
     ("XCompMiddleIfOfThree", "comprehension-several-ifs", "e", ["v = {i for i in y if c if $E if e}"]),
     ("XDictCompFirstIfOfTwo", "comprehension-several-ifs", "e", ["v = {i: 1 for i in y if $E if d}"]),
     ("XGenExpFirstIfOfTwo", "generator-several-ifs", "e", ["v = sum(i for i in y if $E if d)"]),
+    ("XGenExpAssignedFirstIfOfTwo", "comprehension-several-ifs", "e", ["v = (i for i in y if $E if d)"]),
+    ("XCompFirstIfOfTwoSecondFor", "comprehension-several-ifs", "e", ["v = [i for j in y if c for i in j if $E if d]"]),
+    ("XCompFirstIfOfTwoFirstFor", "comprehension-several-ifs", "e", ["v = [i for j in y if $E if d for i in j if c]"]),
     ("XCompSecondForIter", "comprehension-clauses", "e", ["v = [i for j in y for i in $E]"]),
     ("XCompIfBetweenFors", "comprehension-clauses", "e", ["v = [i for j in y if $E for i in j]"]),
     ("XDictCompKey", "comprehension-clauses", "e", ["v = {$E: i for i in y}"]),
     # parameters of a nested def / lambda
     ("XNestedDefTypedDefault", "typed-default-parameter", "e", ["def g(a: int = $E):", "    pass"]),
     ("XNestedDefTypedKwDefault", "typed-default-parameter", "e", ["def g(a=1, *, b: int = $E):", "    pass"]),
+    ("XNestedDefTypedSecondDefault", "typed-default-parameter", "e", ["def g(a: int = 1, b: str = $E, *c, **d):", "    pass"]),
+    ("XNestedAsyncDefTypedDefault", "typed-default-parameter", "e", ["async def g(a: int = $E):", "    pass"]),
     ("XNestedDefKwDefault", "parameters", "e", ["def g(*, a=$E):", "    pass"]),
     ("XNestedDefParamAnnotation", "parameters", "e", ["def g(a: $E):", "    pass"]),
     ("XNestedDefReturnAnnotation", "parameters", "e", ["def g() -> $E:", "    pass"]),
     ("XLambdaDefault", "parameters", "e", ["v = lambda a=$E: a"]),
     # starred targets / values
     ("XStarTargetFirst", "starred-first-target", "t", ["*$E, yy = xs"]),
+    ("XStarTargetFirstOfThree", "starred-first-target", "t", ["*$E, yy, zz = xs"]),
+    ("XStarTargetFirstInList", "starred-first-target", "t", ["[*$E, yy] = xs"]),
+    ("XForStarTargetFirst", "starred-first-target", "t", ["for *$E, a in xs:", "    pass"]),
     ("XStarTargetLast", "starred", "t", ["yy, *$E = xs"]),
     ("XForStarTarget", "starred", "t", ["for a, *$E in xs:", "    pass"]),
     ("XStarInList", "starred", "e", ["v = [*$E, 1]"]),
@@ -221,16 +234,23 @@ EXTRA_POSITIONS = [
     ("XMatchOr", "match-pattern", "n", ["match v:", "    case 1 | $E:", "        pass"]),
     ("XMatchClassKeyword", "match-pattern", "n", ["match v:", "    case P(x=$E):", "        pass"]),
     ("XMatchMappingValue", "match-pattern", "n", ["match v:", "    case {\"k\": $E}:", "        pass"]),
+    ("XMatchOpenSequence", "match-pattern", "n", ["match v:", "    case 1, $E:", "        pass"]),
+    ("XMatchTupleAs", "match-pattern", "n", ["match v:", "    case ($E as nm, 2):", "        pass"]),
+    ("XMatchClassPositional", "match-pattern", "n", ["match v:", "    case P($E, 2):", "        pass"]),
+    ("XMatchNestedClassInMapping", "match-pattern", "n", ["match v:", "    case {\"k\": P(x=[$E])}:", "        pass"]),
+    ("XMatchSecondCase", "match-pattern", "n", ["match v:", "    case 1:", "        pass", "    case $E | None:", "        pass"]),
     ("XMatchGuard", "match", "e", ["match v:", "    case 1 if $E:", "        pass"]),
     # a class defined inside the method
     ("XNestedClassBase", "nested-class-bases", "e", ["class In($E):", "    pass"]),
     ("XNestedClassKeyword", "nested-class-bases", "e", ["class In(metaclass=$E):", "    pass"]),
+    ("XNestedClassSecondBase", "nested-class-bases", "e", ["class In(Base, $E):", "    pass"]),
+    ("XNestedClassBaseSubscript", "nested-class-bases", "e", ["class In(Generic[$E]):", "    pass"]),
     ("XNestedClassBody", "nested-class", "e", ["class In:", "    q = $E"]),
     # further expression positions
     ("XSliceUpper", "expression", "e", ["v = a[1:$E]"]),
     ("XSliceStep", "expression", "e", ["v = a[::$E]"]),
-    ("XDelSubscriptIndex", "expression", "e", ["del d[$E]"]),
-    ("XAugSubscriptIndex", "expression", "e", ["d[$E] += 1"]),
+    ("XDelSubscriptIndex", "store-target-subscript-index", "e", ["del d[$E]"]),
+    ("XAugSubscriptIndex", "store-target-subscript-index", "e", ["d[$E] += 1"]),
     ("XAnnAssignAnnotation", "expression", "e", ["v: $E = 1"]),
     ("XReturnTupleElt", "expression", "e", ["return 1, $E"]),
     ("XWithSecondItem", "expression", "e", ["with w, $E:", "    pass"]),
